@@ -898,7 +898,8 @@ def whole_graph_case(arg) -> Dict[str, Any]:
 
     from hv import rt, synth
 
-    seed, tids = arg
+    seed, tids = arg[:2]
+    frac = len(arg) > 2 and bool(arg[2])  # nanosecond-resolution file loaded with HTA_DISABLE_NS_ROUNDING=1: fractional instants reach the builder
     rng = random.Random(seed)
     spans = [(a, b) for a in range(8) for b in range(a, 8)]
     per_thread: Dict[int, List[Tuple[int, int]]] = {}
@@ -920,12 +921,30 @@ def whole_graph_case(arg) -> Dict[str, Any]:
         order.append((tid, per_thread[tid][pos[tid]]))
         pos[tid] += 1
     for tid, (a, b) in order:
-        evs.append(synth.host_op(f"aten::t{tid}_{a}_{b}", 1000 + 10 * a, 10 * (b - a), tid=tid))
+        evs.append(synth.host_op(f"aten::t{tid}_{a}_{b}", (1000 + 0.25 * a) if frac else (1000 + 10 * a), (0.25 if frac else 10) * (b - a), tid=tid))
     if evs[0]["dur"] == 0:
         evs[0]["dur"], evs[0]["ts"] = 200, 990  # the first event of a Kineto file is a host operator that spans the others of its thread
         evs[0]["tid"] = max(tids) + 50
     inp = {"seed": seed, "thread_ids": list(tids), "events": evs}
+    if frac:
+        inp["environment"] = {"HTA_DISABLE_NS_ROUNDING": "1"}
     fails: List[Dict[str, Any]] = []
+    old_env = os.environ.get("HTA_DISABLE_NS_ROUNDING")
+    if frac:
+        os.environ["HTA_DISABLE_NS_ROUNDING"] = "1"
+    try:
+        return _whole_graph_run(evs, inp, fails, seed, tids)
+    finally:
+        if frac:
+            if old_env is None:
+                os.environ.pop("HTA_DISABLE_NS_ROUNDING", None)
+            else:
+                os.environ["HTA_DISABLE_NS_ROUNDING"] = old_env
+
+
+def _whole_graph_run(evs, inp, fails, seed, tids) -> Dict[str, Any]:
+    from hv import rt
+
     with rt.trace_dir({0: evs}) as d:
         try:
             from hta.common.trace_call_graph import CallGraph
@@ -938,7 +957,7 @@ def whole_graph_case(arg) -> Dict[str, Any]:
         n = 0
         for tid in sorted(set(int(x) for x in df["tid"])):
             sub = df[df["tid"] == tid]
-            events = [(int(i), int(ts), int(du)) for i, ts, du in zip(sub["index"], sub["ts"], sub["dur"])]
+            events = [(int(i), _num(ts), _num(du)) for i, ts, du in zip(sub["index"], sub["ts"], sub["dur"])]
             if in_known_class_d4(events):
                 continue
             root = -abs(tid)
@@ -956,14 +975,62 @@ def whole_graph_case(arg) -> Dict[str, Any]:
     return {"n_checks": n, "fails": fails, "nontrivial": n > 0, "sample": {"seed": seed, "thread_ids": list(tids)}}
 
 
+def two_rank_objects_case(seed: int) -> Dict[str, Any]:
+    """ONE call graph over two ranks whose threads differ in shape: the node objects kept per rank (rank_to_nodes, the call stacks' node maps,
+    get_parent / children) describe that rank's tree, whatever was built after it."""
+    import contextlib
+    import io
+    import random
+
+    from hv import rt, synth
+
+    rng = random.Random(seed)
+    spans = [(a, b) for a in range(8) for b in range(a + 1, 8)]
+    per_rank: Dict[int, List[Dict[str, Any]]] = {}
+    for rk in (0, 1):
+        while True:
+            fam = [rng.choice(spans) for _ in range(3 + rk + rng.randint(0, 2))]
+            if is_laminar(fam):
+                break
+        per_rank[rk] = [synth.host_op("aten::first_op", 990, 5, tid=3)] + [synth.host_op(f"aten::r{rk}_{a}_{b}", 1000 + 10 * a, 10 * (b - a), tid=3) for a, b in fam]
+    inp = {"seed": seed, "events": per_rank}
+    fails: List[Dict[str, Any]] = []
+    n = 0
+    with rt.trace_dir(per_rank) as d, contextlib.redirect_stdout(io.StringIO()):
+        try:
+            from hta.common.trace_call_graph import CallGraph
+
+            t = rt.lib(fails, "parse_traces", inp, rt.load_trace, d, False, use_multiprocessing=False)
+            cg = rt.lib(fails, "CallGraph(all ranks)", inp, CallGraph, t)
+        except rt.LibFailure:
+            return {"n_checks": 1, "fails": fails, "nontrivial": True}
+        for rk in (0, 1):
+            df = t.get_trace(rk)
+            events = [(int(i), int(ts), int(du)) for i, ts, du in zip(df["index"], df["ts"], df["dur"])]
+            if in_known_class_d4(events):
+                continue
+            nodes = cg.rank_to_nodes[rk]
+            root = -3
+            parent = {int(k): int(v.parent) for k, v in nodes.items() if k >= 0}
+            depth = {int(k): int(v.depth) for k, v in nodes.items() if k >= 0}
+            children = {int(k): [int(c) for c in v.children] for k, v in nodes.items()}
+            n += 1
+            bad = oracle_check(events, parent, depth, children, root)
+            if bad:
+                fails.append({"what": "node_objects_of_each_rank_match_spec", "input": {**inp, "rank": rk}, "observed": bad[:4],
+                              "expected": "the node map kept for this rank holds this rank's events, each under its innermost enclosing event"})
+    return {"n_checks": n, "fails": fails, "nontrivial": n > 0, "sample": {"seed": seed}}
+
+
 def bounded_whole_graph(ctx) -> Dict[str, Any]:
     from hv import rt
 
     n = 40 if not ctx.thorough else 600
     tidsets = [(1, 8), (7, 1), (103, 110), (2, 5), (1,), (3, 2, 1)]
-    res = rt.pmap(whole_graph_case, [(ctx.seed * 97 + i, tidsets[i % len(tidsets)]) for i in range(n)], ctx.procs)
+    res = rt.pmap(whole_graph_case, [(ctx.seed * 97 + i, tidsets[i % len(tidsets)], i % 4 == 3) for i in range(n)], ctx.procs)
+    res += rt.pmap(two_rank_objects_case, [ctx.seed * 89 + i for i in range(n // 4)], ctx.procs)
     return rt.summarise(res, f"{PROP}.whole_graph", f"{n} Kineto files with one to three host threads (thread ids 1, 2, 3, 5, 7, 8, 103, 110 in several orders), each thread a random properly nested family of 2-6 spans on an "
-                        "8-point grid, events of the threads interleaved; parsed by Trace.parse_traces and built by trace_call_graph.CallGraph (whole-graph depth / height passes over the shared node map)")
+                        "8-point grid, events of the threads interleaved, every fourth file with quarter-microsecond instants loaded under HTA_DISABLE_NS_ROUNDING=1; parsed by Trace.parse_traces and built by trace_call_graph.CallGraph (whole-graph depth / height passes over the shared node map); plus {n // 4} two-rank call graphs whose per-rank node objects are compared with the oracle")
 
 
 def translator_differential(ctx) -> Dict[str, Any]:
